@@ -1420,11 +1420,26 @@ impl<'a, 'e> Translator<'a, 'e> {
                 .collect();
             data_type = args.typ.clone();
         }
-        let new_args = new_args.chain(
-            unapplied_args
-                .iter()
-                .map(|arg| Expr::Ident(arg.clone(), span)),
-        );
+        // If the constructor is only partially applied the arguments which were given must still be
+        // evaluated now and not when (or if) the remaining arguments arrive
+        let mut binder = Binder::default();
+        let needs_bindings = !unapplied_args.is_empty();
+        let new_args = new_args
+            .map(|arg| match arg {
+                Expr::Ident(..) | Expr::Const(..) => arg,
+                _ if needs_bindings => {
+                    let typ = arg.env_type_of(&self.env);
+                    binder.bind(arena.alloc(arg), typ)
+                }
+                _ => arg,
+            })
+            .collect::<Vec<_>>()
+            .into_iter()
+            .chain(
+                unapplied_args
+                    .iter()
+                    .map(|arg| Expr::Ident(arg.clone(), span)),
+            );
         let data = Expr::Data(
             TypedIdent {
                 name: id.name.clone(),
@@ -1436,7 +1451,7 @@ impl<'a, 'e> Translator<'a, 'e> {
         if unapplied_args.is_empty() {
             data
         } else {
-            self.new_lambda(
+            let lambda = self.new_lambda(
                 span.start(),
                 TypedIdent {
                     name: Symbol::from(format!("${}", id.name)),
@@ -1445,7 +1460,8 @@ impl<'a, 'e> Translator<'a, 'e> {
                 unapplied_args,
                 arena.alloc(data),
                 span,
-            )
+            );
+            binder.into_expr(&self.allocator, lambda)
         }
     }
 
